@@ -719,23 +719,32 @@ C14 = props.register(GraphMLProp(
     "file), read back with the same specs; non-trivial = the graph was built and has >= 1 edge (codec: string contains a special "
     "character); distinct = distinct case text"))
 C14.manifest = {
-    "text": "Proved (unbounded, axiom-free): unescape(escape s) = s for EVERY string (C14_escape_roundtrip), escaped text contains "
-            "no markup character and ampersands only as the five predefined references (C14_escape_no_markup, C14_escape_form); the "
-            "reader model applied to the writer model's events hands the constructor exactly the written node list, edge list "
-            "(weights as identical tokens) and directedness, for all names and weights (C14_roundtrip_elements); hence write-then-read "
-            "= the constructor on the graph's own content (C14_roundtrip_partial), it never panics (C14_roundtrip_no_panic), and for "
-            "every graph with distinct names whose edges join its own nodes the names come back in the same order with the same specs / "
-            "directedness (C14_roundtrip_nodes_specs). Validated per generated graph on the implementation (oracle independent of the "
-            "model): node order, directedness, edge multiset with bit-identical weights after write+read, string and file variant, file "
-            "bytes = string bytes; plus: writer model's events = quick-xml's tokens of the real document, model reader on those tokens = "
-            "real read-back, model round trip returns the same graph.",
-    "note": "Hypotheses of the round-trip theorems are the two float oracles (Display emits no markup; FromStr inverts Display), "
+    "text": "Proved (unbounded, axiom-free): unescape(escape s) = s for EVERY string (C14_escape_roundtrip); escaped text contains no "
+            "markup character and ampersands only as the five predefined references (C14_escape_no_markup, C14_escape_form); the reader "
+            "model applied to the writer model's events hands the constructor exactly the written node list, edge list (weights as "
+            "identical tokens) and directedness, for all names and weights (C14_roundtrip_elements); the constructor applied to distinct "
+            "names and an edge list the specs admit, in any order, stores exactly those nodes in order and exactly that edge multiset "
+            "(C14_rebuild, any name type); together: write-then-read with the same specs succeeds and returns the same names in the same "
+            "order, the same directedness and the same edge multiset with identical weights (C14_roundtrip, C14_roundtrip_elements_full), "
+            "and never panics (C14_roundtrip_no_panic). The well-formedness hypotheses are evaluated on every generated graph by a "
+            "verified checker (C14_wf_check_sound, observation 31). Validated per generated graph on the implementation (oracle "
+            "independent of the model): node order, directedness, edge multiset with bit-identical weights after write+read, string and "
+            "file variant, file bytes = string bytes; plus: writer model's events = quick-xml's tokens of the real document, model reader "
+            "on those tokens = real read-back.",
+    "note": "Hypotheses of the round-trip theorems: the two float oracles (Display emits no markup; FromStr inverts Display), "
             "satisfiable (roundtrip_hyps_satisfiable) and sampled every run against Rust's std (every exponent x 8 mantissas x 2 signs "
-            "+ 40k/2M random bit patterns, bit-equality). Modelled, not verified: quick-xml tokenizer/serializer (the model runs on "
-            "quick-xml's own events of the real document). NOT proved: the edge-multiset clause of rebuild (constructor on a "
-            "well-formed graph's own edge list stores exactly that multiset) - validated per case. Axioms: none.",
+            "+ 40k/2M random bit patterns, bit-equality), and well-formedness of the written graph (distinct names, admissible edges; "
+            "non-vacuous: roundtrip_full_nonvacuous; that every reachable Graph satisfies it is the WF invariant of C01, here checked per "
+            "case). Modelled, not verified: quick-xml tokenizer/serializer (the model runs on quick-xml's own events of the real document "
+            "and the writer model's events are compared with them). Axioms: none.",
     "technique": "Coq proof (structural induction, invariants) + differential correspondence vs vm_compute model + implementation-level round-trip oracle",
 }
+C14.assumptions = [
+    "f64 Display emits no XML markup character and str::parse::<f64> inverts it bit-exactly on non-NaN values (oracle; sampled every run)",
+    "quick-xml's tokenizer inverts its serializer on the event shapes the writer emits (oracle; the writer model's events are compared "
+    "with quick-xml's tokens of every generated document)",
+    "names are valid UTF-8 without control characters (XML 1.0 cannot carry them); the codec theorem itself holds for all byte strings",
+]
 
 C19 = props.register(GraphMLProp(
     "C19", 4700, 40000,
@@ -764,3 +773,8 @@ C19.manifest = {
             "spec_new_from is validated per case (observation 8), not proved here. Axioms: none.",
     "technique": "Coq proof (invariants over the event loop and the constructor) + differential correspondence vs vm_compute model on quick-xml events + oracle",
 }
+C19.assumptions = [
+    "the string -> event step is quick-xml 0.37.5's: the model runs on the events quick-xml itself produced for the same document; a panic "
+    "or hang inside quick-xml is covered only by the generated document stream",
+    "str::parse::<f64> is an oracle (any behaviour is allowed by the theorems; the harness reports the real result per Text event)",
+]
